@@ -117,6 +117,9 @@ var c02Stages = map[string]string{
 	"stages:logfmt-list":  `| logfmt container_name, k`,
 	"stages:json":         `| json`,
 	"stages:label_format": `| label_format container_name="x{{.container_name}}"`,
+	// label filters as the first stage, on labels every record has (msg comes from the record, not from the container)
+	"stages:msg-filter":   `| msg=~"from-.*"`,
+	"stages:msg-filter-2": `| msg!="" | container_id=~"id.*"`,
 }
 
 var c02SrcRe = regexp.MustCompile(`from-id(\d+)-(\d)`)
@@ -556,7 +559,7 @@ func c02Run(r *vkit.Run) {
 		for _, te := range [][2]int64{{100 * sec, 200 * sec}, {1500000000, 9 * sec}} {
 			one(c02Input{Ctrs: inv, Matchers: []c02Matcher{all}, Shape: "log-nostep", StartNS: te[0], EndNS: te[1]})
 		}
-		for _, sh := range []string{"stages:logfmt", "stages:logfmt-list", "stages:json", "stages:label_format"} {
+		for _, sh := range []string{"stages:logfmt", "stages:logfmt-list", "stages:json", "stages:label_format", "stages:msg-filter", "stages:msg-filter-2"} {
 			one(c02Input{Ctrs: inv, Matchers: []c02Matcher{all}, Shape: sh, StartNS: 0, EndNS: 3 * sec})
 			one(c02Input{Ctrs: inv, Matchers: []c02Matcher{{Label: "container_state", Op: "=", Value: "running"}}, Shape: sh, StartNS: 0, EndNS: 3 * sec})
 		}
